@@ -191,6 +191,10 @@ class FuncTranslator:
                 a, b, ta = self.num_join(a, ta, b, tb, e)
             return "(if %s then %s else %s)" % (c, a, b), ta
         if isinstance(e, ast.Attribute):
+            av = getattr(self, "attr_vars", {})
+            key = ast.unparse(e)
+            if key in av:
+                return av[key]
             if isinstance(e.value, ast.Name) and e.value.id in env:
                 base, tbase = env[e.value.id]
                 if isinstance(tbase, tuple) and tbase[0] == "Rec":
@@ -214,6 +218,9 @@ class FuncTranslator:
             elif isinstance(e.func, ast.Attribute) and isinstance(e.func.value, ast.Name) \
                     and e.func.value.id == "math":
                 fname = "math." + e.func.attr
+            elif isinstance(e.func, ast.Attribute) and isinstance(e.func.value, ast.Name) \
+                    and e.func.value.id == "utils":
+                fname = e.func.attr                       # utils.mult_matrix(...) etc.
             if fname in getattr(self, "holes", {}):
                 return self.holes[fname]
             if e.keywords:
@@ -460,6 +467,53 @@ def gen_assign_expr(ft, src, qualname, target, coqname, params, holes):
     ft.holes = {}
     ptxt = " ".join("(%s : %s)" % (n, coq_type(tt, ft.records)) for n, tt in params)
     return "Definition %s (o : NumOps R) %s : %s :=\n  %s.\n" % (coqname, ptxt, coq_type(t, ft.records), txt)
+
+
+def gen_from_assigns(ft, src, qualname, coqname, params, targets, result, attr_vars=None, holes=None):
+    """Definition coqname (params) := let t1 := <rhs of the assignment to t1 in qualname> in ... <result>.
+    `targets`: names (or unparsed target texts such as '(a, b, c, d, e, f)') assigned exactly once anywhere in the
+    function, translated in the given order; `result` is a Python expression over params and targets;
+    attr_vars maps attribute chains (e.g. 'self.textstate.leading') to (param name, type)."""
+    fn = find_def(ft.tree, qualname)
+    ft.src = src
+    ft.attr_vars = dict(attr_vars or {})
+    ft.holes = dict(holes or {})
+    ft.stop_at_loop = ft.stop_at_effect = False
+    ft.local_types = {}
+    env = {n: (n, t) for n, t in params}
+    lets = []
+    for tgt in targets:
+        want = None
+        if "@" in tgt:                      # name@k: the k-th assignment in source order, of exactly `of` many
+            tgt, spec = tgt.split("@")
+            want, total = [int(x) for x in spec.split("/")]
+        hits = [n for n in ast.walk(fn) if isinstance(n, ast.Assign) and len(n.targets) == 1
+                and ast.unparse(n.targets[0]) == tgt]
+        hits.sort(key=lambda n: (n.lineno, n.col_offset))
+        if want is not None:
+            if len(hits) != total:
+                raise Unsupported("%s: %d assignments to %s, expected %d" % (qualname, len(hits), tgt, total))
+            hits = [hits[want]]
+        if len(hits) != 1:
+            raise Unsupported("%s: %d assignments to %s" % (qualname, len(hits), tgt))
+        v, tv = ft.expr(hits[0].value, env)
+        t0 = hits[0].targets[0]
+        if isinstance(t0, ast.Attribute):
+            if tgt not in ft.attr_vars:
+                raise Unsupported("%s: attribute target %s is not declared" % (qualname, tgt))
+            pat = ft.attr_vars[tgt][0]
+            env = dict(env)
+            env[pat] = (pat, tv)
+            ft.attr_vars[tgt] = (pat, tv)
+        else:
+            pat, env = ft.bind(t0, v, tv, env)
+        lets.append("let %s := %s in" % (pat, v))
+    rexpr = ast.parse(result, mode="eval").body
+    rv, rt = ft.expr(rexpr, env)
+    ft.attr_vars, ft.holes = {}, {}
+    ptxt = " ".join("(%s : %s)" % (n, coq_type(tt, ft.records)) for n, tt in params)
+    return "Definition %s (o : NumOps R) %s : %s :=\n  %s\n  %s.\n" % (
+        coqname, ptxt, coq_type(rt, ft.records), "\n  ".join(lets), rv)
 
 
 def gen_module(py_path, items, records=None, header="", known=None):
